@@ -13,7 +13,7 @@ pub fn run(ctx: &Ctx, rec: &mut Rec) {
     let f = &c.f;
     let mut zrng = rng_for(ctx.seed, P, 999, 0);
     let mut inputs = field_zoo(f);
-    inputs.extend(field_random(f, &mut zrng, ctx.scale(20000, 2_000_000)));
+    inputs.extend(field_random(f, &mut zrng, ctx.scale(60_000, 2_000_000)));
     for cl in ["zero", "one", "p-1", "root-of-unity-2^k", "small-int", "random", "branch:square", "branch:nonsquare"] {
         rec.declare_class(cl);
     }
@@ -70,7 +70,7 @@ pub fn run(ctx: &Ctx, rec: &mut Rec) {
     let zoo = field_zoo(f);
     par(rec, |w, n, rec| {
         let mut rng = rng_for(ctx.seed, P, w, 2);
-        let reps = ctx.scale(6000, 400_000);
+        let reps = ctx.scale(20_000, 400_000);
         for rep in 0..reps {
             if rep % n != w {
                 continue;
